@@ -121,8 +121,12 @@ class ClohessyWiltshire(AnalyticalPropagator):
             elif isinstance(man, ContinuousMan) and date >= man.start:
                 orb = self._propagate(man.start, orb)
                 if man.check(date):
-                    # If the date of propagation is during a continuous maneuver
-                    return self._propagate(date, orb, man.accel(orb))
+                    # If the date of propagation is during a continuous maneuver.
+                    # Do not return yet: a later maneuver of the list may already have
+                    # started (impulse during the thrust, overlapping thrusts). The
+                    # equations being linear, its contribution is correctly added by
+                    # the free back-and-forth propagation of the following iterations
+                    orb = self._propagate(date, orb, man.accel(orb))
                 else:
                     # If the date of propagation is after a continuous maneuver
                     orb = self._propagate(man.stop, orb, man.accel(orb))
